@@ -115,6 +115,10 @@ def runRel (c : Case) : Verdict :=
   | "eq" =>
     let ok := a == b && !(a.startsWith "!")
     { agree := ok, spec := if ok then "ok" else if a == b then "fail:both-runs-failed" else "fail:the-two-runs-differ", model := a }
+  | "eq4" =>
+    let all := [a, b, c.get "goc", c.get "god"]
+    let ok := all.all (· == a) && !(a.startsWith "!")
+    { agree := ok, spec := if ok then "ok" else "fail:the-four-input-combinations-differ", model := a }
   | "multiset" =>
     let ok := !(a.startsWith "!") && rowsAsMultisets a == rowsAsMultisets b
     { agree := ok, spec := if ok then "ok" else "fail:the-two-runs-differ-beyond-order", model := a }
